@@ -120,27 +120,33 @@ Definition st_rel (st : tcp_state) (c : control) (aof : bool) (st' : tcp_state) 
   match c with
   | CRst => st' = Closed \/ (st = SynReceived /\ st' = Listen)
   | _ => (aof = true /\ cls st = 2 /\ (cls st' = 3 \/ st' = Closed)) \/
-         (cls st' = cls st /\ (st' = FinWait1 -> st = FinWait1)) \/
+         (cls st' = cls st /\ 1 <= cls st <= 3 /\ (st' = FinWait1 -> st = FinWait1) /\
+          (aof = true -> cls st <> 2)) \/
          (st = SynReceived /\ cls st' = 1)
   end.
 
 Definition phase_sock {A} (p : phase A) (f : A -> socket) : socket :=
   match p with Cont _ a => f a | Ret _ s _ => s end.
+Definition is_ret {A} (p : phase A) : bool := match p with Cont _ _ => false | Ret _ _ _ => true end.
 
 Lemma transition_spec : forall cx s ip r c al aof p,
   tcp_process_transition cx s ip r c al aof = Ok p -> c <> CPsh ->
   let s' := phase_sock p (fun x => x) in
-  txv s' = txv s \/
+  (txv s' = txv s /\
+   (is_ret p = false ->
+    match s_state s with Listen | SynSent | SynReceived => False | _ => True end /\
+    (aof = true -> cls (s_state s) <> 2) /\ c <> CRst)) \/
   (exists st' tm, txv s' = txv (upd_timer (upd_state s st') tm) /\
-     (tm = s_timer s \/ exists e, tm = TClose e) /\ st_rel (s_state s) c aof st') \/
-  (s_state s = Listen /\ c = CSyn /\
+     (tm = s_timer s \/ exists e, tm = TClose e) /\ st_rel (s_state s) c aof st' /\
+     (is_ret p = true <-> c = CRst)) \/
+  (s_state s = Listen /\ c = CSyn /\ is_ret p = false /\
    s_state s' = SynReceived /\ s_local_seq_no s' = cx_isn cx /\ s_remote_last_seq s' = cx_isn cx /\
    s_tx_buffer s' = s_tx_buffer s /\ s_remote_win_len s' = s_remote_win_len s /\
    s_remote_win_scale s' = r_window_scale r /\ timer_is_idle (s_timer s') = true /\
    s_remote_mss s' = s_remote_mss (tcp_apply_mss s r) /\
    s_remote_win_shift s' = (if is_some (r_window_scale r) then s_remote_win_shift s else 0) /\
    s_syn_unacked_in_fin_wait s' = s_syn_unacked_in_fin_wait s) \/
-  (s_state s = SynSent /\ c = CSyn /\
+  (s_state s = SynSent /\ c = CSyn /\ is_ret p = false /\
    s_state s' = (if is_some (r_ack_number r) then Established else SynReceived) /\
    s_local_seq_no s' = s_local_seq_no s /\
    s_remote_last_seq s' = (if is_some (r_ack_number r) then seq_add (s_local_seq_no s) 1
@@ -158,13 +164,13 @@ Proof.
   | context [tcp_challenge_ack_reply ?a ?b ?c ?d] =>
       let E := fresh "E" in destruct (tcp_challenge_ack_reply a b c d) as [s'' p''] eqn:E;
       apply (f_equal fst) in E; cbn [fst] in E; rewrite <- E in H
-  end; injection H as <-; cbn [phase_sock];
-  try (left; reflexivity);
-  try (left; apply challenge_txv);
+  end; injection H as <-; cbn [phase_sock is_ret];
+  try (left; split; [reflexivity|cbn [cls]; intuition congruence]);
+  try (left; split; [apply challenge_txv|cbn [cls]; intuition congruence]);
   try (right; left; unfold tcp_enter_time_wait, tcp_fin_received, tcp_set_state;
        eexists; eexists; split; [reflexivity|]; split;
        [first [left; reflexivity | right; eexists; reflexivity]|]; unfold st_rel; cbn [cls];
-       solve [auto 7 | intuition congruence]).
+       split; [solve [auto 7 | intuition (congruence || lia)]|split; congruence]).
   all: repeat match goal with H : is_some (s_remote_win_scale _) = _ |- _ => fld_in H; fld; rewrite H
                             | H : is_some (r_ack_number _) = _ |- _ => fld_in H; fld; rewrite ?H end;
        assert (Hm : s_tx_buffer (tcp_apply_mss s r) = s_tx_buffer s /\
@@ -304,4 +310,380 @@ Proof.
   - destruct (tcp_ack_reply cx s1 ip r) as [s2 p2] eqn:E2. injection H as <- <- <-.
     change s2 with (fst (s2, p2)). rewrite <- E2, ack_reply_txv. exact T.
   - injection H as <- <- <-. exact T.
+Qed.
+
+(* ------------------------------------------------------------------------------------------ *)
+(* everything after the transition table, in one statement                                      *)
+(* ------------------------------------------------------------------------------------------ *)
+Lemma tail_spec : forall cx s3 ip r al aa pl po t1 t2 t3 s8 reply tags,
+  (do ur <- tcp_process_update_remote cx s3 r al;
+   let '(s4, is_window_update) := ur in
+   do da <- tcp_process_dup_ack cx s4 r al is_window_update;
+   let '(s5, t5) := da in
+   let s5 := match r_timestamp r with
+             | Some (tsval, _) => upd_last_remote_tsval s5 tsval
+             | None => s5
+             end in
+   let '(s6, t6) := tcp_process_timers cx s5 al aa in
+   let '(s7, t7) := tcp_process_zwp cx s6 al in
+   do pr <- tcp_process_payload cx s7 ip r pl po;
+   let '(s8, reply, t8) := pr in
+   Ok (s8, reply, [t1; t2; t3; t5; t6; t7; t8])) = Ok (s8, reply, tags) ->
+  exists tx',
+    (al > 0 -> rb_dequeue_allocated (s_tx_buffer s3) al = Ok tx') /\
+    (al <= 0 -> tx' = s_tx_buffer s3) /\
+    s_state s8 = s_state s3 /\ s_tx_buffer s8 = tx' /\
+    s_remote_win_len s8 = learned_window s3 r /\
+    s_remote_win_scale s8 = s_remote_win_scale s3 /\
+    s_remote_mss s8 = s_remote_mss s3 /\ s_remote_win_shift s8 = s_remote_win_shift s3 /\
+    match r_ack_number r with
+    | None => s_local_seq_no s8 = s_local_seq_no s3 /\ s_remote_last_seq s8 = s_remote_last_seq s3 /\
+              s_syn_unacked_in_fin_wait s8 = s_syn_unacked_in_fin_wait s3
+    | Some a => s_local_seq_no s8 = a /\
+                s_remote_last_seq s8 = (if seq_lt (s_remote_last_seq s3) a then a
+                                        else s_remote_last_seq s3) /\
+                s_syn_unacked_in_fin_wait s8 = false
+    end /\
+    (timer_is_zero_window_probe (s_timer s8) = true -> learned_window s3 r = 0) /\
+    (timer_is_idle (s_timer s8) = true ->
+       aa = true \/ timer_is_idle (s_timer s3) = true \/
+       (s_remote_last_seq s8 =? s_local_seq_no s8) = true).
+Proof.
+  intros cx s3 ip r al aa pl po t1 t2 t3 s8 reply tags H.
+  destruct (tcp_process_update_remote cx s3 r al) as [[s4 wu]| |] eqn:E4; cbn [obind] in H; try discriminate.
+  destruct (tcp_process_dup_ack cx s4 r al wu) as [[s5 t5]| |] eqn:E5; cbn [obind] in H; try discriminate.
+  set (s5' := match r_timestamp r with
+              | Some (tsval, _) => upd_last_remote_tsval s5 tsval
+              | None => s5
+              end) in *.
+  assert (T5 : txv s5' = txv s5) by (unfold s5'; destruct (r_timestamp r) as [[? ?]|]; reflexivity).
+  destruct (tcp_process_timers cx s5' al aa) as [s6 t6] eqn:E6.
+  destruct (tcp_process_zwp cx s6 al) as [s7 t7] eqn:E7.
+  destruct (tcp_process_payload cx s7 ip r pl po) as [[[s8' reply'] t8]| |] eqn:E8; cbn [obind] in H;
+    try discriminate.
+  injection H as <- <- <-.
+  apply update_remote_spec in E4. destruct E4 as (tx' & V4 & D1 & D2).
+  apply dup_ack_spec in E5.
+  destruct (timers_zwp_spec _ _ _ _ _ _ _ _ E6 E7) as (V7 & Z7 & I7).
+  apply payload_spec in E8.
+  destruct (txv_proj _ _ E8) as (P1 & P2 & P3 & P4 & P5 & P6 & P7 & P8 & P9 & P10).
+  destruct (txv_proj _ _ V7) as (Q1 & Q2 & Q3 & Q4 & Q5 & Q6 & _ & Q8 & Q9 & Q10).
+  fld_in Q1. fld_in Q2. fld_in Q3. fld_in Q4. fld_in Q5. fld_in Q6. fld_in Q8. fld_in Q9. fld_in Q10.
+  destruct (txv_proj _ _ T5) as (R1 & R2 & R3 & R4 & R5 & R6 & R7 & R8 & R9 & R10).
+  destruct (txv_proj _ _ V4) as (U1 & U2 & U3 & U4 & U5 & U6 & U7 & U8 & U9 & U10).
+  fld_in U1. fld_in U2. fld_in U3. fld_in U4. fld_in U5. fld_in U6. fld_in U7. fld_in U8. fld_in U9.
+  fld_in U10.
+  exists tx'. split; [exact D1|]. split; [exact D2|].
+  destruct (r_ack_number r) as [a|].
+  - destruct E5 as (tm & V5 & Htm).
+    destruct (txv_proj _ _ V5) as (W1 & W2 & W3 & W4 & W5 & W6 & W7 & W8 & W9 & W10).
+    fld_in W1. fld_in W2. fld_in W3. fld_in W4. fld_in W5. fld_in W6. fld_in W7. fld_in W8. fld_in W9.
+    fld_in W10.
+    rewrite P1, P2, P3, P4, P5, P6, P7, P8, P9, P10.
+    rewrite Q1, Q2, Q3, Q4, Q5, Q6, Q8, Q9, Q10.
+    rewrite R1, R2, R3, R4, R5, R6, R8, R9, R10.
+    rewrite W1, W2, W3, W4, W5, W6, W8, W9, W10.
+    rewrite U1, U2, U4, U5, U6, U8, U9.
+    repeat (split; [reflexivity|]). split; [repeat split; reflexivity|].
+    split.
+    + intros Hz. specialize (Z7 Hz). congruence.
+    + intros Hi. specialize (I7 Hi). rewrite R7, W7, R4, R3, W4, W3, U4 in I7.
+      destruct I7 as [(_ & I)|[I|I]]; [left; exact I| |right; right; exact I].
+      destruct Htm as [->|(-> & _)]; [|discriminate I]. rewrite U7 in I. right. left. exact I.
+  - subst s5.
+    rewrite P1, P2, P3, P4, P5, P6, P7, P8, P9, P10.
+    rewrite Q1, Q2, Q3, Q4, Q5, Q6, Q8, Q9, Q10.
+    rewrite R1, R2, R3, R4, R5, R6, R8, R9, R10.
+    rewrite U1, U2, U3, U4, U5, U6, U8, U9, U10.
+    repeat (split; [reflexivity|]). split; [repeat split; reflexivity|].
+    split.
+    + intros Hz. specialize (Z7 Hz). congruence.
+    + intros Hi. specialize (I7 Hi). rewrite R7, R4, R3, U7, U4, U3 in I7.
+      destruct I7 as [(_ & I)|[I|I]]; [left; exact I|right; left; exact I|right; right; exact I].
+Qed.
+
+(* ------------------------------------------------------------------------------------------ *)
+(* acceptable acknowledgement numbers, as unbounded offsets                                     *)
+(* ------------------------------------------------------------------------------------------ *)
+Lemma ack_window_offsets : forall b d0 m U,
+  0 <= d0 < 2 ^ 32 -> 0 <= m <= U -> U <= 2 ^ 31 - 1 ->
+  seq_lt (sq (b + d0)) (sq (b + m)) = false ->
+  seq_gt (sq (b + d0)) (sq (b + U)) = false ->
+  m <= d0 <= U.
+Proof.
+  intros b d0 m U Hd Hm HU Hlt Hgt. unfold seq_lt, seq_gt in *.
+  rewrite seq_sdiff_sq_gen in Hlt, Hgt.
+  change (2 ^ 32) with 4294967296 in *. change (2 ^ 31) with 2147483648 in *. lia.
+Qed.
+
+Lemma control_eqb_neq : forall a b, a <> b -> control_eqb a b = false.
+Proof. intros [] []; intros; try reflexivity; congruence. Qed.
+
+Lemma quash_props : forall s r,
+  let c := tcp_process_quash s r in
+  c <> CPsh /\ (c = CRst <-> r_control r = CRst) /\ (c = CSyn <-> r_control r = CSyn).
+Proof.
+  intros. unfold c, tcp_process_quash.
+  destruct (r_control r); cbn [quash_psh control_eqb andb];
+  try match goal with |- context [if ?b then _ else _] => destruct b end;
+  repeat split; congruence.
+Qed.
+
+Lemma ack_len_spec : forall g s r al aof aa,
+  tx_inv g s -> repr_ok r -> ack_facts s r -> r_control r <> CRst -> s_state s <> Closed ->
+  tcp_process_ack_len s r = Ok (al, aof, aa) ->
+  exists d, 0 <= d /\
+    (g_phase g <> PSyn -> al = (if aof then d - 1 else d)) /\
+    (g_phase g = PSyn -> al = 0 /\ aof = false /\ d <= 1) /\
+    (aof = true -> g_phase g = PData /\ g_fin g = true /\ d = rb_len (s_tx_buffer s) + 1 /\
+                   cls (s_state s) = 2) /\
+    (aof = false -> match g_phase g with
+                    | PSyn => True | PData => d <= rb_len (s_tx_buffer s) | PFinAcked => d = 0 end) /\
+    match r_ack_number r with
+    | None => d = 0 /\ aof = false /\ al = 0 /\ aa = false /\
+              (s_state s = Listen \/ s_state s = SynSent)
+    | Some a => a = sq (g_iss g + g_una g + d) /\ aa = (g_flight g <=? d) /\
+                (g_phase g = PSyn -> d = 1)
+    end.
+Proof.
+  intros g s r al aof aa Hinv Hr Hf Hrst Hcl H.
+  destruct Hinv as (Hwf & Hcap & Ha & Hlen & Hc & Hl & Hrl & Hfl & Hhw & Hph & Hw & Hs).
+  destruct Hr as (_ & Hack & _).
+  pose proof Hwf as (Hl0 & _).
+  pose proof (budget_bound g (rb_len (s_tx_buffer s)) ltac:(lia)) as Hb.
+  destruct Hf as [Hf|Hf]; [congruence|].
+  unfold tcp_process_ack_len in H. rewrite (control_eqb_neq _ _ Hrst) in H.
+  (* the acknowledgement number as an offset *)
+  assert (Hsome : forall a, r_ack_number r = Some a -> forall m U,
+            m = b2z (tcp_sent_syn s) -> 
+            U = rb_len (s_tx_buffer s) + (b2z (tcp_sent_syn s) + b2z (tcp_sent_fin s)) ->
+            seq_lt a (seq_add (s_local_seq_no s) m) = false ->
+            seq_gt a (seq_add (s_local_seq_no s) U) = false ->
+            exists d0, a = sq (g_iss g + g_una g + d0) /\ m <= d0 <= U).
+  { intros a Ea m U Em EU Hlt Hgt. rewrite Ea in Hack.
+    exists ((a - (g_iss g + g_una g)) mod 2 ^ 32).
+    assert (Ed : a = sq (g_iss g + g_una g + (a - (g_iss g + g_una g)) mod 2 ^ 32))
+      by (apply sq_decompose; assumption).
+    split; [exact Ed|].
+    rewrite Hl, !seq_add_sq in Hlt, Hgt. rewrite Ed in Hlt, Hgt.
+    assert (0 <= m <= U /\ U <= 2 ^ 31 - 1).
+    { subst m U. destruct (tcp_sent_syn s), (tcp_sent_fin s); cbn [b2z]; lia. }
+    apply (ack_window_offsets (g_iss g + g_una g) _ m U);
+      [apply Z.mod_pos_bound; lia | lia | lia | exact Hlt | exact Hgt]. }
+  unfold phase_ok in Hph. unfold ack_facts in Hf.
+  unfold tcp_sent_syn, tcp_sent_fin in *.
+  destruct (s_state s) eqn:Est; try congruence.
+  1: { (* Listen *)
+    rewrite Hf in H. injection H as <- <- <-. destruct (g_phase g) eqn:P; try tauto.
+    exists 0. split; [lia|]. split; [congruence|]. split; [intros _; repeat split; lia|].
+    split; [discriminate|]. split; [intros _; exact I|]. rewrite Hf. repeat split; auto. }
+  1: { (* SynSent *)
+    destruct (g_phase g) eqn:P; try tauto. destruct Hph as (A0 & L0 & F0).
+    destruct Hf as (_ & [Hn|Hn]); rewrite Hn in H |- *.
+    + injection H as <- <- <-. exists 0. split; [lia|]. split; [congruence|].
+      split; [intros _; repeat split; lia|]. split; [discriminate|]. split; [intros _; exact I|].
+      repeat split; auto.
+    + cbn [b2z] in H. rewrite Hl, !seq_add_sq in H. unfold g_una in H.
+      replace (g_iss g + 0 + 1) with (g_iss g + 1) in H by lia.
+      rewrite seq_ge_sq, seq_sub_sq in H by lia.
+      destruct (Z.geb_spec 1 1); [|lia]. destruct (Z.ltb_spec 1 1); [lia|]. cbn [obind andb] in H.
+      injection H as <- <- <-. exists 1. unfold g_una.
+      split; [lia|]. split; [congruence|]. split; [intros _; repeat split; lia|].
+      split; [discriminate|]. split; [intros _; exact I|].
+      split; [rewrite Hl, seq_add_sq; unfold g_una; rewrite P; f_equal; lia|].
+      split; [|intros _; reflexivity].
+      rewrite Hrl. unfold g_una. rewrite P.
+      replace (g_iss g + 0 + g_flight g) with (g_iss g + g_flight g) by lia.
+      replace (g_iss g + 0 + 1) with (g_iss g + 1) by lia.
+      unfold g_budget in Hfl. rewrite P in Hfl. rewrite seq_le_sq by lia. reflexivity. }
+  1: { (* SynReceived *)
+    destruct (g_phase g) eqn:P; try tauto. destruct Hph as (A0 & L0 & F0).
+    rewrite Hf in H |- *.
+    cbn [b2z] in H. rewrite Hl, !seq_add_sq in H. unfold g_una in H.
+    replace (g_iss g + 0 + 1) with (g_iss g + 1) in H by lia.
+    rewrite seq_ge_sq, seq_sub_sq in H by lia.
+    destruct (Z.geb_spec 1 1); [|lia]. destruct (Z.ltb_spec 1 1); [lia|]. cbn [obind andb] in H.
+    injection H as <- <- <-. exists 1. unfold g_una.
+    split; [lia|]. split; [congruence|]. split; [intros _; repeat split; lia|].
+    split; [discriminate|]. split; [intros _; exact I|].
+    split; [rewrite Hl, seq_add_sq; unfold g_una; rewrite P; f_equal; lia|].
+    split; [|intros _; reflexivity].
+    rewrite Hrl. unfold g_una. rewrite P.
+    replace (g_iss g + 0 + g_flight g) with (g_iss g + g_flight g) by lia.
+    replace (g_iss g + 0 + 1) with (g_iss g + 1) by lia.
+    unfold g_budget in Hfl. rewrite P in Hfl. rewrite seq_le_sq by lia. reflexivity. }
+  all: destruct Hf as (a & Ea & Hlt & Hgt).
+  (* Established, CloseWait: PData, no FIN *)
+  1, 4: destruct (g_phase g) eqn:P; try tauto;
+    destruct (Hsome a Ea _ _ eq_refl eq_refl Hlt Hgt) as (d0 & Ed & Hd0); cbn [b2z] in Hd0;
+    rewrite Ea in H |- *; cbn [b2z andb] in H; rewrite Hl, !seq_add_sq, Ed in H;
+    rewrite seq_ge_sq, seq_sub_sq in H by lia;
+    destruct (Z.geb_spec d0 0); [|lia]; destruct (Z.ltb_spec d0 0); [lia|]; cbn [obind] in H;
+    rewrite Hrl in H; rewrite seq_le_sq in H by lia;
+    injection H as <- <- <-; exists d0;
+    (split; [lia|]); (split; [intros _; cbv iota; lia|]); (split; [congruence|]); (split; [discriminate|]);
+    (split; [intros _; lia|]); (split; [exact Ed|]); (split; [reflexivity|congruence]).
+  (* FinWait2, TimeWait: PFinAcked *)
+  2, 5: destruct (g_phase g) eqn:P; try tauto; destruct Hph as (L0 & F0 & G0 & _);
+    destruct (Hsome a Ea _ _ eq_refl eq_refl Hlt Hgt) as (d0 & Ed & Hd0); cbn [b2z] in Hd0;
+    rewrite Ea in H |- *; cbn [b2z andb] in H; rewrite Hl, !seq_add_sq, Ed in H;
+    rewrite seq_ge_sq, seq_sub_sq in H by lia;
+    destruct (Z.geb_spec d0 0); [|lia]; destruct (Z.ltb_spec d0 0); [lia|]; cbn [obind] in H;
+    rewrite Hrl in H; rewrite seq_le_sq in H by lia;
+    injection H as <- <- <-; exists d0;
+    (split; [lia|]); (split; [intros _; cbv iota; lia|]); (split; [congruence|]); (split; [discriminate|]);
+    (split; [intros _; lia|]); (split; [exact Ed|]); (split; [reflexivity|congruence]).
+  (* Closing, LastAck: PData with the FIN *)
+  2, 3: destruct (g_phase g) eqn:P; try tauto;
+    destruct (Hsome a Ea _ _ eq_refl eq_refl Hlt Hgt) as (d0 & Ed & Hd0); cbn [b2z] in Hd0;
+    rewrite Ea in H |- *; cbn [b2z andb] in H; rewrite Hl, !seq_add_sq, Ed in H;
+    rewrite seq_ge_sq, seq_sub_sq in H by lia;
+    destruct (Z.geb_spec d0 0); [|lia]; destruct (Z.ltb_spec d0 0); [lia|]; cbn [obind] in H;
+    rewrite Hrl in H;
+    rewrite !seq_le_sq in H by lia;
+    destruct (Z.eqb_spec (rb_len (s_tx_buffer s) + 1) (d0 - 0));
+    injection H as <- <- <-; exists d0;
+    (split; [lia|]); (split; [intros _; cbv iota; lia|]); (split; [congruence|]);
+    (split; [first [discriminate | intros _; cbn [cls]; repeat split; auto; lia]|]);
+    (split; [first [discriminate | intros _; lia]|]); (split; [exact Ed|]);
+    (split; [reflexivity|congruence]).
+  (* FinWait1: either the SYN|ACK is still unacknowledged (close() in SYN-RECEIVED) or PData *)
+  destruct (g_phase g) eqn:P; try tauto.
+  - destruct Hph as (A0 & L0 & G0 & Fw). rewrite Fw in *. cbn [negb] in *.
+    destruct (Hsome a Ea _ _ eq_refl eq_refl Hlt Hgt) as (d0 & Ed & Hd0); cbn [b2z] in Hd0.
+    rewrite Ea in H |- *. cbn [b2z andb] in H. rewrite Hl, !seq_add_sq, Ed in H.
+    rewrite seq_ge_sq, seq_sub_sq in H by lia.
+    destruct (Z.geb_spec d0 1); [|lia]. destruct (Z.ltb_spec d0 1); [lia|]. cbn [obind] in H.
+    rewrite Hrl in H. rewrite seq_le_sq in H by lia.
+    injection H as <- <- <-. exists d0.
+    split; [lia|]. split; [congruence|]. split; [intros _; repeat split; lia|].
+    split; [discriminate|]. split; [intros _; exact I|]. split; [exact Ed|].
+    split; [reflexivity|intros _; lia].
+  - destruct Hph as (G0 & Fw). rewrite Fw in *. cbn [negb] in *.
+    destruct (Hsome a Ea _ _ eq_refl eq_refl Hlt Hgt) as (d0 & Ed & Hd0); cbn [b2z] in Hd0.
+    rewrite Ea in H |- *. cbn [b2z andb] in H. rewrite Hl, !seq_add_sq, Ed in H.
+    rewrite seq_ge_sq, seq_sub_sq in H by lia.
+    destruct (Z.geb_spec d0 0); [|lia]. destruct (Z.ltb_spec d0 0); [lia|]. cbn [obind] in H.
+    rewrite Hrl in H.
+    rewrite !seq_le_sq in H by lia.
+    destruct (Z.eqb_spec (rb_len (s_tx_buffer s) + 1) (d0 - 0));
+    injection H as <- <- <-; exists d0;
+    (split; [lia|]); (split; [intros _; cbv iota; lia|]); (split; [congruence|]);
+    (split; [first [discriminate | intros _; cbn [cls]; repeat split; auto; lia]|]);
+    (split; [first [discriminate | intros _; lia]|]); (split; [exact Ed|]);
+    (split; [reflexivity|congruence]).
+Qed.
+
+
+(* ------------------------------------------------------------------------------------------ *)
+(* the invariant across one segment                                                             *)
+(* ------------------------------------------------------------------------------------------ *)
+Lemma inv_timer_swap : forall g s s' tm,
+  inv g s -> txv s' = txv (upd_timer s tm) -> (tm = s_timer s \/ exists e, tm = TClose e) ->
+  inv g s'.
+Proof.
+  intros g s s' tm (Htx & Htm) E Ht.
+  destruct (txv_proj _ _ E) as (B1 & B2 & B3 & B4 & B5 & B6 & B7 & B8 & B9 & B10).
+  fld_in B1. fld_in B2. fld_in B3. fld_in B4. fld_in B5. fld_in B6. fld_in B7. fld_in B10.
+  split.
+  - unfold tx_inv in *. rewrite B1, B2, B3, B4, B5, B6, B10. exact Htx.
+  - unfold tm_inv in *. rewrite B2, B5, B7. destruct Ht as [->|(e & ->)]; [exact Htm|].
+    split; discriminate.
+Qed.
+
+Lemma phase_ok_closed : forall g st len fw fw', phase_ok g st len fw -> phase_ok g Closed len fw'.
+Proof.
+  intros g st len fw fw' H. unfold phase_ok in *. destruct (g_phase g).
+  - destruct H as (A & B & _). auto.
+  - exact I.
+  - destruct H as (A & B & C & _). auto.
+Qed.
+
+Lemma inv_state_rst : forall g s s' st' tm,
+  inv g s -> txv s' = txv (upd_timer (upd_state s st') tm) ->
+  (tm = s_timer s \/ exists e, tm = TClose e) ->
+  (st' = Closed \/ (s_state s = SynReceived /\ st' = Listen)) ->
+  inv g s'.
+Proof.
+  intros g s s' st' tm (Htx & Htm) E Ht Hst.
+  destruct (txv_proj _ _ E) as (B1 & B2 & B3 & B4 & B5 & B6 & B7 & B8 & B9 & B10).
+  fld_in B1. fld_in B2. fld_in B3. fld_in B4. fld_in B5. fld_in B6. fld_in B7. fld_in B10.
+  split.
+  - unfold tx_inv in *. rewrite B1, B2, B3, B4, B5, B6, B10.
+    destruct Htx as (H1 & H2 & H3 & H4 & H5 & H6 & H7 & H8 & H9 & H10 & H11).
+    repeat (split; [assumption|]). split; [|assumption].
+    destruct Hst as [->|(Es & ->)]; [eapply phase_ok_closed; eassumption|].
+    rewrite Es in H10. unfold phase_ok in *. destruct (g_phase g); tauto.
+  - unfold tm_inv in *. rewrite B2, B5, B7. destruct Ht as [->|(e & ->)]; [exact Htm|].
+    split; discriminate.
+Qed.
+
+(* the state relation a continuing transition can establish *)
+Definition st_next (st : tcp_state) (c : control) (aof : bool) (st' : tcp_state) : Prop :=
+  (st' = st /\ match st with Listen | SynSent | SynReceived => False | _ => True end /\
+   (aof = true -> cls st <> 2)) \/
+  (st_rel st c aof st' /\ c <> CRst).
+
+Lemma phase_ok_after_ack : forall g st len fw d al (aof : bool) c st' fw' (some : bool),
+  phase_ok g st len fw -> st <> Closed ->
+  0 <= d ->
+  (g_phase g <> PSyn -> al = (if aof then d - 1 else d)) ->
+  (g_phase g = PSyn -> al = 0 /\ aof = false /\ d <= 1) ->
+  (aof = true -> g_phase g = PData /\ g_fin g = true /\ d = len + 1 /\ cls st = 2) ->
+  (aof = false -> match g_phase g with PSyn => True | PData => d <= len | PFinAcked => d = 0 end) ->
+  (some = true -> fw' = false /\ (g_phase g = PSyn -> d = 1)) ->
+  (some = false -> fw' = fw /\ d = 0 /\ (st = Listen \/ st = SynSent)) ->
+  0 <= g_flight g <= g_budget g len ->
+  st_next st c aof st' ->
+  phase_ok (g_ack g d al aof) st' (len - al) fw'.
+Proof.
+  intros g st len fw d al aof c st' fw' some Hph Hncl Hd Hal Hsyn Haof Hnaof Hsome Hnone Hf Hnext.
+  assert (Hn : (st' = st /\ match st with Listen | SynSent | SynReceived => False | _ => True end /\
+                (aof = true -> cls st <> 2)) \/
+               (aof = true /\ cls st = 2 /\ (cls st' = 3 \/ st' = Closed)) \/
+               (cls st' = cls st /\ 1 <= cls st <= 3 /\ (st' = FinWait1 -> st = FinWait1) /\
+                (aof = true -> cls st <> 2)) \/
+               (st = SynReceived /\ cls st' = 1)).
+  { destruct Hnext as [X|(Hr & Hc)]; [left; exact X|right].
+    unfold st_rel in Hr. destruct c; try congruence; exact Hr. }
+  clear Hnext.
+  unfold phase_ok in *. unfold g_ack. cbn [g_phase g_acked g_fin g_flight].
+  unfold g_budget in Hf.
+  destruct (g_phase g) eqn:P.
+  - (* PSyn *)
+    destruct (Hsyn eq_refl) as (-> & -> & D1). destruct Hph as (A0 & L0 & Hst).
+    destruct some.
+    + destruct (Hsome eq_refl) as (-> & D). specialize (D eq_refl). subst d.
+      destruct (Z.eqb_spec 1 0); [lia|].
+      destruct st; try tauto; try congruence;
+      destruct st'; cbn [cls] in Hn;
+      try (exfalso; intuition (subst; cbn [cls] in *; try lia; try congruence; try discriminate); fail);
+      intuition (subst; cbn [cls] in *; try lia; try congruence).
+    + destruct (Hnone eq_refl) as (-> & -> & Hls). destruct (Z.eqb_spec 0 0); [|lia].
+      split; [lia|]. split; [lia|].
+      destruct Hls as [->| ->]; destruct st'; cbn [cls] in Hn;
+      try (exfalso; intuition (subst; cbn [cls] in *; try lia; try congruence; try discriminate); fail);
+      intuition (subst; cbn [cls] in *; try lia; try congruence).
+  - (* PData *)
+    specialize (Hal ltac:(discriminate)).
+    assert (Hs : some = true).
+    { destruct some; [reflexivity|]. destruct (Hnone eq_refl) as (_ & _ & [->| ->]); tauto. }
+    destruct (Hsome Hs) as (-> & _).
+    destruct aof; cbv iota in Hal.
+    + destruct (Haof eq_refl) as (_ & G & D & C).
+      split; [lia|]. split; [rewrite G in Hf; cbn [b2z] in Hf; lia|]. split; [exact G|].
+      destruct st'; cbn [cls] in Hn; try exact I;
+      exfalso; intuition (subst; cbn [cls] in *; try lia; try congruence; try discriminate).
+    + destruct st; try tauto; try congruence;
+      destruct st'; cbn [cls] in Hn;
+      try (exfalso; intuition (subst; cbn [cls] in *; try lia; try congruence; try discriminate); fail);
+      intuition (subst; cbn [cls] in *; try lia; try congruence).
+  - (* PFinAcked *)
+    specialize (Hal ltac:(discriminate)). destruct Hph as (L0 & F0 & G0 & Hst).
+    destruct aof; [destruct (Haof eq_refl) as (X & _); discriminate|]. cbv iota in Hal.
+    specialize (Hnaof eq_refl). cbv iota in Hnaof. subst d al.
+    split; [lia|]. split; [lia|]. split; [exact G0|].
+    destruct st; try tauto; try congruence;
+    destruct st'; cbn [cls] in Hn; try exact I;
+    exfalso; intuition (subst; cbn [cls] in *; try lia; try congruence; try discriminate).
 Qed.
